@@ -654,7 +654,13 @@ def backoff_iter(start, stop, count=None, factor=2.0, jitter=False):
         # a start of 0 is followed by min(1, stop), which is where
         # the geometric growth towards stop really begins
         denom = start if start else min(1.0, stop)
-        count = 1 + math.ceil(math.log(stop/denom, factor))
+        if stop / denom == float('inf'):
+            # the quotient overflows for ranges spanning most of the
+            # float exponents (1e-200 .. 1e200): subtract the logs
+            steps = (math.log(stop) - math.log(denom)) / math.log(factor)
+        else:
+            steps = math.log(stop/denom, factor)
+        count = 1 + math.ceil(steps)
         count = count if start else count + 1
     if count != 'repeat' and count < 0:
         raise ValueError('count must be positive or "repeat", not %r' % count)
